@@ -748,10 +748,12 @@ theorem decI32_enc (m : Int) (h1 : -2147483648 ≤ m) (h2 : m < 2147483648) :
   simp only []
   split <;> omega
 
-theorem ripEntry_decode (e : RipEntry) (hf : e.Fits) (rest : Bytes) :
-    let b := ripEntryBytes e ++ rest
-    (⟨beDec (b.take 2), beDec (sl b 2 4), beDec (sl b 4 8), beDec (sl b 8 12), beDec (sl b 12 16), decI32 (sl b 16 20)⟩ : RipEntry)
-      = e ∧ b.drop 20 = rest := by
+theorem ripEntry_slices (e : RipEntry) (rest : Bytes) :
+    (ripEntryBytes e ++ rest).take 2 = be16 e.af ∧ sl (ripEntryBytes e ++ rest) 2 4 = be16 e.tag ∧
+    sl (ripEntryBytes e ++ rest) 4 8 = beEnc 4 e.ip ∧ sl (ripEntryBytes e ++ rest) 8 12 = beEnc 4 e.mask ∧
+    sl (ripEntryBytes e ++ rest) 12 16 = beEnc 4 e.nh ∧
+    sl (ripEntryBytes e ++ rest) 16 20 = beEnc 4 (e.metric % 4294967296).toNat ∧
+    (ripEntryBytes e ++ rest).drop 20 = rest := by
   have t1 : (ripEntryBytes e ++ rest).take 2 = be16 e.af := by
     unfold ripEntryBytes; rw [List.append_assoc]; exact take_left _ _ 2 (by simp)
   have t2 : sl (ripEntryBytes e ++ rest) 2 4 = be16 e.tag := by
@@ -777,7 +779,14 @@ theorem ripEntry_decode (e : RipEntry) (hf : e.Fits) (rest : Bytes) :
       ← List.append_assoc (((be16 _ ++ be16 _) ++ beEnc 4 _) ++ beEnc 4 _) (beEnc 4 _)]
     exact sl_mid ((((be16 e.af ++ be16 e.tag) ++ beEnc 4 e.ip) ++ beEnc 4 e.mask) ++ beEnc 4 e.nh) _ _ 16 20
       (by simp) (by simp)
-  refine ⟨?_, drop_left _ _ 20 (ripEntryBytes_length e).symm⟩
+  exact ⟨t1, t2, t3, t4, t5, t6, drop_left _ _ 20 (ripEntryBytes_length e).symm⟩
+
+theorem ripEntry_decode (e : RipEntry) (hf : e.Fits) (rest : Bytes) :
+    let b := ripEntryBytes e ++ rest
+    (⟨beDec (b.take 2), beDec (sl b 2 4), beDec (sl b 4 8), beDec (sl b 8 12), beDec (sl b 12 16), decI32 (sl b 16 20)⟩ : RipEntry)
+      = e ∧ b.drop 20 = rest := by
+  obtain ⟨t1, t2, t3, t4, t5, t6, t7⟩ := ripEntry_slices e rest
+  refine ⟨?_, t7⟩
   simp only [t1, t2, t3, t4, t5, t6, be16]
   rw [beDec_beEnc 2 _ (by simpa using hf.af), beDec_beEnc 2 _ (by simpa using hf.tag), beDec_beEnc 4 _ (by simpa using hf.ip),
     beDec_beEnc 4 _ (by simpa using hf.mask), beDec_beEnc 4 _ (by simpa using hf.nh), decI32_enc _ hf.metricLo hf.metricHi]
@@ -836,5 +845,105 @@ theorem rip_parse (h : Rip) (hf : h.Fits) :
   simp only [c0, if_false, hu, hd]
   rw [ripEntriesParse_rt h.entries hf.entries _ (by omega)]
   simp
+
+/-! ## variants: repairs D50 (unsigned RIP metric) and D49 (EAP request/response keep their body) -/
+
+structure RipEntry.FitsU (e : RipEntry) : Prop where
+  af : e.af < 65536
+  tag : e.tag < 65536
+  ip : e.ip < 4294967296
+  mask : e.mask < 4294967296
+  nh : e.nh < 4294967296
+  metricLo : 0 ≤ e.metric                    -- struct 'I': the whole 32-bit wire range
+  metricHi : e.metric < 4294967296
+
+theorem ripEntryPackU_ok (e : RipEntry) (hf : e.FitsU) : ripEntryPackU e = .ok (ripEntryBytes e) := by
+  have h1 := hf.metricLo; have h2 := hf.metricHi
+  have hm : e.metric % 4294967296 = e.metric := by omega
+  simp [ripEntryPackU, packU32m, pk, encode, ripEntryBytes, be16, hf.af, hf.tag, hf.ip, hf.mask, hf.nh, h1, h2, hm, bind,
+    Except.bind, pure, Except.pure]
+
+theorem ripEntriesPackU_ok (es : List RipEntry) (hf : ∀ e ∈ es, e.FitsU) : ripEntriesPackU es = .ok (ripEntriesBytes es) := by
+  induction es with
+  | nil => rfl
+  | cons e r ih =>
+    have ih' := ih (fun q hq => hf q (by simp [hq]))
+    simp [ripEntriesPackU, ripEntryPackU_ok e (hf e (by simp)), ih', ripEntriesBytes, bind, Except.bind, pure, Except.pure]
+
+theorem ripEntriesParseU_rt (es : List RipEntry) (hf : ∀ e ∈ es, e.FitsU) :
+    ∀ fuel, es.length < fuel → ripEntriesParseU fuel (ripEntriesBytes es) = es := by
+  induction es with
+  | nil => intro fuel hfu; cases fuel with
+    | zero => simp at hfu
+    | succ f => simp [ripEntriesParseU, ripEntriesBytes]
+  | cons e r ih =>
+    intro fuel hfu
+    cases fuel with
+    | zero => simp at hfu
+    | succ f =>
+      have he := hf e (by simp)
+      have hl : ¬ ((ripEntryBytes e ++ ripEntriesBytes r).length < 20) := by
+        rw [List.length_append, ripEntryBytes_length]; omega
+      obtain ⟨t1, t2, t3, t4, t5, t6, t7⟩ := ripEntry_slices e (ripEntriesBytes r)
+      have h1 := he.metricLo; have h2 := he.metricHi
+      have hlt : (e.metric % 4294967296).toNat < 256 ^ 4 := by
+        have : (256 : Nat) ^ 4 = 4294967296 := by decide
+        rw [this]; omega
+      simp only [ripEntriesBytes, ripEntriesParseU, hl, if_false, t1, t2, t3, t4, t5, t6, t7, be16]
+      rw [beDec_beEnc 2 _ (by simpa using he.af), beDec_beEnc 2 _ (by simpa using he.tag), beDec_beEnc 4 _ (by simpa using he.ip),
+        beDec_beEnc 4 _ (by simpa using he.mask), beDec_beEnc 4 _ (by simpa using he.nh), beDec_beEnc 4 _ hlt,
+        ih (fun q hq => hf q (by simp [hq])) f (by simp at hfu; omega)]
+      have hm : ((e.metric % 4294967296).toNat : Int) = e.metric := by omega
+      rw [hm]
+
+structure Rip.FitsU (h : Rip) : Prop where
+  command : h.command < 256
+  version : h.version < 256
+  entries : ∀ e ∈ h.entries, e.FitsU
+  nonempty : h.entries ≠ []
+
+theorem ripHdrU_ok (h : Rip) (hf : h.FitsU) : ripHdrU h = .ok (ripBytes h) := by
+  simp [ripHdrU, pk, encode, ripEntriesPackU_ok h.entries hf.entries, ripBytes, be16, hf.command, hf.version, bind,
+    Except.bind, pure, Except.pure]
+
+theorem ripU_parse (h : Rip) (hf : h.FitsU) : ripParseU (ripBytes h) = .rip h := by
+  have hlen : (ripBytes h).length = 4 + 20 * h.entries.length := by
+    simp [ripBytes, ripEntriesBytes_length]; omega
+  have hne : 1 ≤ h.entries.length := by
+    cases he : h.entries with
+    | nil => exact absurd he hf.nonempty
+    | cons _ _ => simp
+  have hfit : fits [.uint 1, .uint 1, .uint 2] [.num h.command, .num h.version, .num 0] := by
+    simp [fits, hf.command, hf.version]
+  have he : encode [.uint 1, .uint 1, .uint 2] [.num h.command, .num h.version, .num 0]
+      = some (beEnc 1 h.command ++ (beEnc 1 h.version ++ be16 0)) := by
+    simp [encode, be16, hf.command, hf.version]
+  obtain ⟨hu, hd, hl⟩ := unpack_take _ _ _ (ripEntriesBytes h.entries) he hfit
+  have hsz : size [Field.uint 1, .uint 1, .uint 2] = 4 := rfl
+  rw [hsz] at hu hd hl
+  unfold ripParseU
+  rw [hlen]
+  have c0 : ¬ (4 + 20 * h.entries.length < 24) := by omega
+  unfold ripBytes
+  simp only [c0, if_false, hu, hd]
+  rw [ripEntriesParseU_rt h.entries hf.entries _ (by omega)]
+  simp
+
+/-- EAP with repair D49: what follows the 4-byte header of a request/response is its payload -/
+theorem eapB_parse (h : Eap) (payload : Bytes) (hc : h.code < 256) (hi : h.id < 256) (hl : h.length < 65536) :
+    eapParseB (eapBytes h ++ payload)
+      = .eap h (if (h.code = 1 ∨ h.code = 2) ∧ payload ≠ [] then .raw payload else .nil) := by
+  have hfit : fits eapolL [.num h.code, .num h.id, .num h.length] := by simp [eapolL, fits, hc, hi, hl]
+  have he : encode eapolL [.num h.code, .num h.id, .num h.length] = some (eapBytes h) := by
+    simp [eapolL, encode, eapBytes, be16, hc, hi, hl]
+  obtain ⟨hu, hd, hl4⟩ := unpack_take eapolL _ _ payload he hfit
+  have hsz : size eapolL = 4 := rfl
+  rw [hsz] at hu hd hl4
+  unfold eapParseB
+  simp only [hu, hd, List.length_append, hl4]
+  have c0 : ¬ (4 + payload.length < 4) := by omega
+  have hiff : (4 + payload.length ≥ 5) ↔ payload ≠ [] := by
+    cases payload <;> simp <;> omega
+  simp only [c0, if_false, hiff]
 
 end Pox.Packet
